@@ -376,15 +376,20 @@ class COO(SparseArray, NDArrayOperatorsMixin):  # lgtm [py/missing-equals]
 
         coords = np.atleast_2d(np.flatnonzero(~equivalent(x, fill_value)))
         data = x.ravel()[tuple(coords)]
-        return cls(
+        # `idx_dtype` has to hold the extents of `x`, not the size of the flattened array
+        if idx_dtype and not can_store(idx_dtype, max(x.shape, default=0)):
+            raise ValueError(f"cannot cast array with shape {x.shape} to dtype {idx_dtype}.")
+        ar = cls(
             coords,
             data,
             shape=x.size,
             has_duplicates=False,
             sorted=True,
             fill_value=fill_value,
-            idx_dtype=idx_dtype,
         ).reshape(x.shape)
+        if idx_dtype:
+            ar.coords = ar.coords.astype(idx_dtype)
+        return ar
 
     def todense(self):
         """
